@@ -15,7 +15,7 @@ def showChars (l : List Char) : String := showCodes (l.map Char.toNat)
 def showTok (t : Token) : String := s!"{t.typ.toNat}:{showChars t.str}"
 
 def showShort (s : LexCore) : String :=
-  s!"{s.state.toNat}.{s.prevrune.toNat}.{s.preBuiltinRune.toNat}.{s.priori}.{s.linenum}.{s.tokens.length};{showChars s.buffer}"
+  s!"{s.state.toNat}.{s.prevrune.toNat}.{s.preBuiltinRune.toNat}.{s.priori}.{s.linenum}.{s.tokens.length}.{s.escDigits}.{s.escValue}.{if s.escByte then 1 else 0};{showChars s.buffer}"
 
 def showFull (s : LexState) : String :=
   let toks := if s.tokens.isEmpty then "-" else ",".intercalate (s.tokens.map showTok)
